@@ -138,20 +138,22 @@ func textEntries() {
 		}})
 	pad := func(name string, left bool) {
 		add(&entry{mod: "text", name: name, params: "SI|S",
-			fixed: []T{{"ab", int64(5), "x"}, {"ab", int64(5)}, {"abcdef", int64(3), "x"}, {"ab", int64(6), "xy"}, {"", int64(2), "é"}, {"ab", int64(-1), "x"}},
+			fixed: []T{{"ab", int64(5), "x"}, {"ab", int64(5)}, {"abcdef", int64(3), "x"}, {"ab", int64(6), "xy"}, {"", int64(2), "é"}, {"ab", int64(-1), "x"}, {"", int64(5), "ab"}, {"x", int64(6), "abcd"}, {"x", int64(4), "ab"}},
 			dom: func(a T) bool {
-				n, s := num(a, 1), str(a, 0)
+				n := num(a, 1)
 				p := " "
 				if len(a) == 3 {
 					p = str(a, 2)
 				}
-				// the documentation fixes the result only when the padding is a whole number of pad_with
-				return n <= 64 && len(p) > 0 && (n <= len(s) || (n-len(s))%len(p) == 0)
+				// "padded … to length pad_len": with a multi-character pad_with that does not divide the gap the
+				// implementation keeps the copies adjacent to s whole and cuts the far end (S5: it used to slice
+				// out of range there)
+				return n <= 64 && len(p) > 0
 			},
 			gen: func(r *lib.RNG) T {
 				s := randString(r)
 				p := lib.Pick(r, []string{"x", " ", "ab", "é", "0"})
-				n := len(s) + len(p)*r.Intn(4) - r.Intn(2)*r.Intn(len(s)+2)
+				n := len(s) + len(p)*r.Intn(4) - r.Intn(2)*r.Intn(len(s)+2) + r.Intn(2)*r.Intn(len(p)+1)
 				if r.Chance(1, 3) {
 					return T{s, int64(n)}
 				}
@@ -167,11 +169,12 @@ func textEntries() {
 				if len(s) >= n {
 					return s
 				}
-				fill := strings.Repeat(p, (n-len(s))/len(p))
+				gap := n - len(s)
+				fill := strings.Repeat(p, gap/len(p)+1)
 				if left {
-					return fill + s
+					return fill[len(fill)-gap:] + s
 				}
-				return s + fill
+				return s + fill[:gap]
 			}})
 	}
 	pad("pad_left", true)
